@@ -12,25 +12,25 @@ import (
 
 // Solver drives one long-lived SMT solver process over a pipe.
 type Solver struct {
-	name    string
-	cmd     *exec.Cmd
-	in      *bufio.Writer
-	inRaw   io.WriteCloser
-	out     *bufio.Reader
-	depth   int
-	Queries int
-	Sat     int
-	Unsat   int
-	Unknown int
-	Errors  int
-	Time    time.Duration
-	MaxQ    time.Duration
-	log     *os.File
-	gen     int // generation: terms defined in an older generation must be re-sent
-	defGen  map[*Term]int
+	name     string
+	cmd      *exec.Cmd
+	in       *bufio.Writer
+	inRaw    io.WriteCloser
+	out      *bufio.Reader
+	depth    int
+	Queries  int
+	Sat      int
+	Unsat    int
+	Unknown  int
+	Errors   int
+	Time     time.Duration
+	MaxQ     time.Duration
+	log      *os.File
+	gen      int // generation: terms defined in an older generation must be re-sent
+	defGen   map[*Term]int
 	SlowHook func(d time.Duration)
-	GetTime time.Duration
-	Gets int
+	GetTime  time.Duration
+	Gets     int
 }
 
 func NewSolver(name string, timeoutMs int, logPath string) *Solver {
